@@ -84,7 +84,11 @@ pub fn trace(cfg_json: &str, acts_json: &str) -> i32 {
         }
     }
     cfg = crate::evidence::from_val(&base);
-    let acts: Vec<Act> = serde_json::from_str(acts_json).expect("actions json");
+    let mut acts: Vec<Act> = serde_json::from_str(acts_json).expect("actions json");
+    if std::env::var("VERIF_TRACE_NOTATION").is_ok() {
+        // actions given in 6-decimal notation for a world with more decimals
+        acts = acts.iter().map(|a| a.scaled(cfg.k())).collect();
+    }
     let mut w = World::new(&cfg);
     let traders = ["alice", "bob", "carol"];
     for (i, a) in acts.iter().enumerate() {
